@@ -279,3 +279,54 @@ def date_sod(v):
     dt = v.fields["value"] if v.cls.name == "ValueDate" else v
     f = dt.fields
     return zi(f["hour"]) * 3600 + zi(f["minute"]) * 60 + zi(f["second"])
+
+
+# ----------------------------------------------------------------------------- abstract children (DESIGN A.3)
+
+class Stubs:
+    """Abstract AST children / callee functions: `evaluate` is not executed, it appends an event to the
+    ghost trace and yields the outcome scripted by the harness (a value, or a raised CklRuntimeError)."""
+
+    def __init__(self, world):
+        from pyvc.values import PyClass, Builtin
+        self.w = world
+        self.cls = PyClass("StubNode", None, [world.object_cls])
+        self.cls.methods["evaluate"] = Builtin("StubNode.evaluate", self._evaluate)
+        self.cls.methods["collectVars"] = Builtin("StubNode.collectVars", lambda it, a, k, n: None)
+
+    def node(self, name, outcome=None, script=None):
+        o = Obj(self.cls, {"name": name, "outcome": outcome, "script": list(script) if script is not None else None,
+                           "count": 0, "pos": None}, label=name)
+        o.fresh = False
+        return o
+
+    def _evaluate(self, it, a, k, n):
+        node, env = a[0], a[1] if len(a) > 1 else None
+        f = node.fields
+        it.trace.append(("eval", f["name"], env))
+        if f["script"] is not None:
+            if f["count"] >= len(f["script"]):
+                from pyvc.path import PathEnd
+                raise PathEnd()           # script exhausted: this behaviour of the child is not explored further
+            out = f["script"][f["count"]]
+        else:
+            out = f["outcome"]
+        f["count"] += 1
+        if callable(out):
+            out = out(it, env)
+        if isinstance(out, tuple) and len(out) == 2 and out[0] == "raise":
+            from pyvc.interp import PyRaise
+            raise PyRaise(out[1])
+        return out
+
+
+def runtime_error(world, it, value=None, name="err"):
+    """a CklRuntimeError object as raised by an abstract child"""
+    cls = world.import_module("ckl.errors").ns["CklRuntimeError"]
+    e = Obj(cls, {"value": value, "msg": SStr(z3.String(name + ".msg")), "pos": None, "stacktrace": PList([]),
+                  "args": ()}, label=name)
+    return e
+
+
+def events(it, kind="eval"):
+    return [e[1] for e in it.trace if e[0] == kind]
